@@ -142,6 +142,8 @@ def _live_count(hist):
 class Exec:
     """Runs a history on a real Hugr and on the model in lock-step."""
 
+    _serial = 0
+
     def __init__(self, on_step=None, root_op=None):
         from hugr import Hugr
         from vf.oracles.store import Model
@@ -154,6 +156,8 @@ class Exec:
         self.opn = 0
         self.dead: set[int] = set()
         self.valid_ports_only = False
+        Exec._serial += 1
+        self.serial = Exec._serial   # distinguishes the op names of different executors deterministically
 
     def node(self, k):
         return self.handles[k]
@@ -165,7 +169,7 @@ class Exec:
         k = st[0]
         if k == "add_node":
             self.opn += 1
-            name = f"op{id(self) % 1000}_{self.opn}"
+            name = f"op{self.serial}_{self.opn}"
             op = ops.Custom(name, tys.FunctionType([tys.Bool] * 4, [tys.Bool] * 4), extension="hist")
             kw = {}
             if st[2] is not None:
